@@ -321,7 +321,7 @@ func ruleBulkWorker(c *core.Ctx) {
 		}
 	}
 	if len(pes) == 0 {
-		c.Fail("DOM/bulk-short-circuit", key+":processElement", pos(c, worker), "the worker no longer processes the element it is handed")
+		failOrGone(c, pkgBulk, "processElement", "DOM/bulk-short-circuit", key+":processElement", pos(c, worker), "the worker no longer processes the element it is handed")
 		return
 	}
 	if len(pes) != 1 || m.flag == nil {
